@@ -64,8 +64,13 @@ def scenario(rng, mix=None, adversarial=False):
     sc = {"mix": mix, "model": model, "mode": mode, "T": T, "xw": gen.fraction(rng, ends=rng.random() < 0.3),
           "ctype": "weight" if rng.random() < 0.8 else "molar",
           "P1": gen.logu(rng, 1e-6, 1.0), "P2": gen.logu(rng, 1e-6, 1.0),
-          "prec": gen.logu(rng, 1e-8, 1e-3), "Tperm": None, "pperm": None,
+          # the library's own default precisions are over-represented: they are what every helper and model passes
+          "prec": rng.choice([3e-4, 5e-5, gen.logu(rng, 1e-8, 1e-3), gen.logu(rng, 1e-8, 1e-3)]), "Tperm": None, "pperm": None,
           "k": rng.choice([2.0, 0.25, 3.7, gen.logu(rng, 1e-3, 1e3)])}
+    if rng.random() < 0.3:                       # a highly selective membrane (the permeate is almost pure)
+        hi = gen.logu(rng, 1e-3, 1.0)
+        lo = hi * gen.logu(rng, 1e-6, 1e-3)
+        sc["P1"], sc["P2"] = (hi, max(lo, 1e-6)) if rng.random() < 0.5 else (max(lo, 1e-6), hi)
     if mode == "temp":
         if adversarial or rng.random() < 0.35:
             sc["Tperm"] = T - gen.logu(rng, 0.05, 15.0)          # near equilibrium
